@@ -604,17 +604,17 @@ def _is_fields_iter(fi, e, stmt):
     return norm(expand_expr(fi, e, stmt)) == 'self.to_dict().items()'
 
 
-def check_escaped_dict(rep, repo, err, base):
+def check_escaped_dict(rep, repo, err, base, ted=None):
     """Every value of the mapping to_escaped_dict() returns is '' or html_escape(x, True), and every field of to_dict()
     gets an entry -- whether the mapping is filled by a loop or built by a comprehension, with the per-field work
-    in place or in a helper."""
-    ted = base.methods['to_escaped_dict']
+    in place or in a helper.  ``ted``: the method to analyse (the base class' or an override in the family)."""
+    ted = base.methods['to_escaped_dict'] if ted is None else ted
     rets = returns_of(ted)
     if len(rets) != 1 or rets[0].value is None:
         raise AnalysisError('to_escaped_dict: a single returned mapping was not found')
     rv = rets[0].value
     sites = []      # (key node, function, leaf expression)
-    comp, rname = None, None
+    comp, rname, inherited = None, None, False
     if isinstance(rv, ast.Name):
         rname = rv.id
         inits = assigned_value(ted.node, rname)
@@ -623,6 +623,10 @@ def check_escaped_dict(rep, repo, err, base):
         init = inits[0][1]
         if isinstance(init, ast.DictComp):
             comp = init
+        elif ted is not base.methods['to_escaped_dict'] and isinstance(init, ast.Call) and isinstance(init.func, ast.Attribute) and \
+                init.func.attr == 'to_escaped_dict' and not init.args and not init.keywords and isinstance(ted.cls, ClassInfo) and \
+                ((isinstance(init.func.value, ast.Call) and norm(init.func.value.func) == 'super') or norm(init.func.value) in [norm(b) for b in ted.cls.node.bases]):
+            inherited = True        # an override that starts from the inherited (escaped, complete) mapping and adds to it
         elif not ((isinstance(init, ast.Dict) and not init.keys) or
                   (isinstance(init, ast.Call) and call_name(init) in ('dict', 'OrderedDict') and not init.args and not init.keywords)):
             raise AnalysisError('to_escaped_dict: construction of the returned mapping not recognised (%s)' % short(init, 60))
@@ -649,6 +653,11 @@ def check_escaped_dict(rep, repo, err, base):
             isinstance(tgt, ast.Tuple) and len(tgt.elts) == 2 and isinstance(tgt.elts[0], ast.Name) and norm(comp.key) == tgt.elts[0].id
         for f_, leaf in value_leaves(repo, ted, comp.value):
             sites.append((comp.value, f_, leaf))
+    elif inherited:
+        complete = True
+        if not sites:
+            rep.ok('R09.c', fkey(ted, 'inherited mapping'), 'returns the inherited escaped mapping unchanged', err, ted.node)
+            return
     else:
         if len(stores) < 1:
             raise AnalysisError('to_escaped_dict: stores into the result dict not found')
@@ -832,8 +841,9 @@ def _is_table(e):
     return isinstance(e, ast.Name) and e.id == TABLE
 
 
-def check_adapt(rep, repo, err, base, msm):
-    ad = base.methods['adapt']
+def check_adapt(rep, repo, err, base, msm, ad=None):
+    """``ad``: the adapt() to analyse -- the base class' or an override in a class of the family."""
+    ad = base.methods['adapt'] if ad is None else ad
     ps = ad.params()
     if len(ps) < 2:
         raise AnalysisError('adapt: the mimetype parameter was not found')
@@ -971,6 +981,13 @@ def check_adapt(rep, repo, err, base, msm):
     else:
         a0 = argn(cv, 'mimetype', 0) if isinstance(cv, ast.Call) and call_tail(cv) == 'get_content_type' else None
         ok_ct = isinstance(a0, ast.Name) and a0.id == mp
+        if ok_ct:
+            # ... and the charset announced is the one the response encodes its body with
+            a1 = argn(cv, 'charset', 1)
+            ok_cs = a1 is not None and norm(a1) == '%s.charset' % ps[0] and not _self_attr_stores(ad, 'charset')
+            rep.check('R09.b', fkey(ad, 'charset of the header'), ok_cs, 'the Content-Type names the charset the body is encoded with (self.charset)' if ok_cs else
+                      'the Content-Type is built with the charset %s, the body is encoded with self.charset: a non-ASCII detail is announced in '
+                      'one encoding and sent in another' % (short(a1, 30) if a1 is not None else 'left to a default'), ad.mod, ct[0][0])
     dn, cn = acfg.nodes_of(data[0][0]), acfg.nodes_of(ct[0][0])
     defs = acfg.nodes_of(lookup) + acfg.nodes_of_all([s for nm in reb for s, v in reb[nm]])
     ok = ok_body and ok_ct and acfg.must_pass(defs, acfg.entry, dn + cn) and acfg.must_pass(dn, acfg.entry, acfg.exit, normal_only=True) and \
@@ -1003,6 +1020,21 @@ def negotiated_over_table(repo, err, mod, fi, expr, use_stmt, expanded=False):
             and recv.value.id in fi.params() and _mod_of(repo, recv.value, mod) is mod and _fn_of(repo, recv.value, fi) is fi):
         return False
     table = argn(e, 'matches', 0)
+    # nothing acceptable: the answer must be None (adapt() then falls back to plain text) or a plain-text type of the table
+    dflt = argn(e, 'default', 1)
+    if dflt is not None and not (isinstance(dflt, ast.Constant) and dflt.value is None):
+        try:
+            dv = repo.fold(dflt, _mod_of(repo, dflt, mod))
+            msm_ = err.const(TABLE)
+        except Exception:
+            return False
+        if not (isinstance(dv, str) and isinstance(msm_, dict) and msm_.get(dv) == 'text'):
+            return False
+        owner_d = _fn_of(repo, dflt, fi)
+        if owner_d is not None and any(isinstance(n_, ast.Name) and (n_.id in _param_names(owner_d) or _name_stores(owner_d, n_.id)) for n_ in ast.walk(dflt)):
+            return False
+    if any(k_.arg is None for k_ in e.keywords) or any(isinstance(a_, ast.Starred) for a_ in e.args):
+        return False
     # the same keys in the same order: list(T), tuple(T), T.keys(), iter(T)
     for _ in range(2):
         if isinstance(table, ast.Call) and isinstance(table.func, ast.Name) and table.func.id in ('list', 'tuple', 'iter') and \
@@ -1361,6 +1393,8 @@ def rule_a(rep, repo, err, base, fam):
     rep.check('R09.a', fkey(init, 'default body'), ok, 'the default body is the plain-text rendering, labelled DEFAULT_MIME' if ok else
               'the default body / mimetype pair of HTTPException changed', err, init.node)
     check_constructor_order(rep, repo, err, base, init, icfg)
+    _guarded(rep, check_handler_slots, rep, repo, err, base)
+    _guarded(rep, check_constructor_chain, rep, repo, err, base, fam)
 
 
 def adapt_site(repo, fi, ename):
@@ -1433,6 +1467,187 @@ def renderer_adapts_negotiated(repo, err, mod_, fi, ename):
     return True
 
 
+def check_adapt_override(rep, repo, err, base, msm, m):
+    """An error type's own adapt(): it either defers to the inherited one (same requested type, on every path, and sets
+    neither body nor Content-Type itself) or it pairs body and header from the table like the base class does."""
+    ps = m.params()
+    me = ps[0] if ps else 'self'
+    bases = [norm(b) for b in m.cls.node.bases] if isinstance(m.cls, ClassInfo) else []
+    sup = [x for x in walk_body(m.node) if isinstance(x, ast.Call) and isinstance(x.func, ast.Attribute) and x.func.attr == 'adapt' and
+           ((isinstance(x.func.value, ast.Call) and norm(x.func.value.func) == 'super') or norm(x.func.value) in bases)]
+    sets = [n for n in walk_body(m.node)
+            if (isinstance(n, ast.Attribute) and isinstance(n.ctx, (ast.Store, ast.Del)) and norm(n.value) == me and n.attr in ('data', 'response', 'content_type', 'mimetype', 'headers'))
+            or (isinstance(n, ast.Subscript) and isinstance(n.ctx, (ast.Store, ast.Del)) and norm(n.value) == me + '.headers')
+            or (isinstance(n, ast.Call) and norm(n.func) in (me + '.set_data', me + '.headers.set', me + '.headers.add', me + '.headers.update', me + '.headers.__setitem__'))]
+    looks = [n for n in walk_body(m.node) if _is_table(n)]
+    if sup and not sets:
+        mcfg = cfg_of(m)
+        args = list(sup[0].args)
+        if not (isinstance(sup[0].func.value, ast.Call) and norm(sup[0].func.value.func) == 'super'):
+            args = args[1:]
+        a0 = args[0] if args else kwarg(sup[0], 'mimetype')
+        ok = len(sup) == 1 and len(ps) >= 2 and isinstance(a0, ast.Name) and a0.id == ps[1] and not _name_stores(m, ps[1]) and \
+            mcfg.must_pass(mcfg.nodes_of(stmt_of(m.mod, sup[0])), mcfg.entry, mcfg.exit, normal_only=True)
+        rep.check('R09.b', fkey(m, 'defers to the inherited adapt'), ok, '%s defers to the inherited adapt() for the requested type' % m.qualname if ok else
+                  '%s does not hand the requested type to the inherited adapt() on every path: body and Content-Type of this error type are not '
+                  'always paired from the format table' % m.qualname, m.mod, sup[0])
+    elif looks:
+        check_adapt(rep, repo, err, base, msm, m)
+    else:
+        rep.fail('R09.b', fkey(m, 'body and header from one pair'),
+                 '%s sets the body / headers of this error type without consulting %s: the Content-Type need not agree with the body' % (m.qualname, TABLE), m.mod, m.node)
+
+
+_TABLE_MUTATORS = ('update', 'pop', 'popitem', 'clear', 'setdefault', '__setitem__', '__delitem__')
+
+
+def check_table_constant(rep, repo, err):
+    """The format table the checks fold from its definition is the table the code sees at every request: no module of the
+    tree stores into it, deletes from it, calls a mutating method on it or re-binds it after import."""
+    bad = []
+    for m in repo.all_internal_modules():
+        if m is not err:
+            k, m_, obj = repo.resolve(m, TABLE)
+            if m_ is not err:
+                continue
+        for n in ast.walk(m.tree):
+            hit = None
+            if isinstance(n, ast.Subscript) and isinstance(n.ctx, (ast.Store, ast.Del)) and _is_table(n.value):
+                hit = n
+            elif isinstance(n, ast.Call) and isinstance(n.func, ast.Attribute) and n.func.attr in _TABLE_MUTATORS and _is_table(n.func.value):
+                hit = n
+            elif isinstance(n, ast.Global) and TABLE in n.names:
+                hit = n
+            elif isinstance(n, ast.Attribute) and isinstance(n.ctx, (ast.Store, ast.Del)) and n.attr == TABLE:
+                hit = n
+            if hit is None:
+                continue
+            fn = m.enclosing_function(hit)
+            fi = m.func_of_node(fn) if fn is not None and not isinstance(fn, ast.Lambda) else None
+            if fi is not None and not isinstance(hit, ast.Global) and (TABLE in _param_names(fi) or _name_stores(fi, TABLE)):
+                continue        # a local / parameter of the same name
+            bad.append((m, hit))
+    rep.check('R09.b', '%s::%s is constant' % (ERR, TABLE), not bad, 'nothing modifies the format table after its definition' if not bad else
+              '%s is modified at run time (%s): what one request adds to / removes from the table decides the formats offered to and chosen '
+              'for every later request' % (TABLE, short(bad[0][1], 60)), bad[0][0] if bad else err, bad[0][1] if bad else None)
+
+
+_SLOTS = (('not_found_type', 404), ('method_not_allowed_type', 405), ('server_error_type', 500))
+
+
+def check_handler_slots(rep, repo, err, base):
+    """The error types an error handler creates for "no route", "wrong method" and "uncaught exception" carry the status
+    of that situation: in ErrorHandler and every subclass, each slot holds a class of the family whose code is the slot's."""
+    eh = err.classes.get('ErrorHandler')
+    if eh is None:
+        raise AnalysisError('anchor vanished: class %s::ErrorHandler' % ERR)
+    n = 0
+    for c in [eh] + repo.subclasses(eh):
+        for slot, want in _SLOTS:
+            if slot not in c.class_attrs and c is not eh:
+                continue
+            val = c.class_attrs.get(slot)
+            if val is None:
+                raise AnalysisError('%s.%s: the slot is not a plain class attribute' % (c.name, slot))
+            if _instance_attr_written(repo, c, slot):
+                raise AnalysisError('%s.%s is also written on instances: not followed' % (c.name, slot))
+            r = repo.resolve_class(c.mod, val)
+            code = None
+            if isinstance(r, ClassInfo) and (r is base or repo.is_subclass(r, base)):
+                dc, cv = repo.class_attr(r, 'code')
+                code = repo.try_fold(cv, dc.mod) if cv is not None and not isinstance(cv, (ast.FunctionDef, ast.AsyncFunctionDef)) else None
+            n += 1
+            ok = code == want
+            rep.check('R09.a', '%s::%s.%s' % (c.mod.name, c.name, slot), ok, '%s.%s = %s (%s)' % (c.name, slot, norm(val), code) if ok else
+                      '%s.%s = %s, which is not an error type with status %d (%s): that situation is answered with another status' %
+                      (c.name, slot, norm(val), want, 'code %s' % code if code is not None else 'not a class of the HTTPException family'), c.mod, val)
+    if n < 3:
+        raise AnalysisError('ErrorHandler: only %d of the slots not_found_type / method_not_allowed_type / server_error_type found' % n)
+
+
+def _base_popped_keys(base_init):
+    """Keys HTTPException.__init__ takes out of its **kwargs (``kwargs.pop('<key>', ...)``)."""
+    kwn = base_init.node.args.kwarg.arg if base_init.node.args.kwarg else None
+    out = set()
+    for n in walk_body(base_init.node):
+        if isinstance(n, ast.Call) and isinstance(n.func, ast.Attribute) and n.func.attr in ('pop', 'get') and norm(n.func.value) == kwn and n.args and \
+                isinstance(n.args[0], ast.Constant) and isinstance(n.args[0].value, str):
+            out.add(n.args[0].value)
+    return out
+
+
+def check_constructor_chain(rep, repo, err, base, fam):
+    """"... or the code given to the instance": a constructor of an error type hands what it was given on to the next
+    constructor -- its **kwargs as they came (own keys may be taken out, none of the keys HTTPException.__init__ reads), its
+    *args, its ``detail`` -- exactly once, on every path, so that code / message / detail / error_type / mimetype given to any
+    error type reach the instance."""
+    binit = base.methods['__init__']
+    std = _base_popped_keys(binit) | set(x.arg for x in binit.node.args.args[1:] + binit.node.args.kwonlyargs)
+    if len(std) < 5:
+        raise AnalysisError('HTTPException.__init__: the keys it reads from **kwargs were not found')
+    for c in fam:
+        m = c.methods.get('__init__')
+        if c is base or m is None:
+            continue
+        a = m.node.args
+        me = m.params()[0] if m.params() else 'self'
+        bases = [norm(b) for b in c.node.bases]
+        sup = [x for x in walk_body(m.node) if isinstance(x, ast.Call) and isinstance(x.func, ast.Attribute) and x.func.attr == '__init__' and
+               ((isinstance(x.func.value, ast.Call) and norm(x.func.value.func) == 'super') or norm(x.func.value) in bases)]
+        mcfg = cfg_of(m)
+        why = None
+        if len(sup) != 1:
+            why = 'calls the next constructor %d times' % len(sup)
+        elif not mcfg.must_pass(mcfg.nodes_of(stmt_of(c.mod, sup[0])), mcfg.entry, mcfg.exit, normal_only=True):
+            why = 'does not call the next constructor on every path'
+        else:
+            call = sup[0]
+            args = list(call.args)
+            if not (isinstance(call.func.value, ast.Call) and norm(call.func.value.func) == 'super'):
+                args = args[1:]     # Base.__init__(self, ...)
+            kwn, van = (a.kwarg.arg if a.kwarg else None), (a.vararg.arg if a.vararg else None)
+            if kwn is not None:
+                if not any(k.arg is None and isinstance(k.value, ast.Name) and k.value.id == kwn for k in call.keywords) or _name_stores(m, kwn):
+                    why = 'does not pass its **%s on' % kwn
+                else:
+                    for n in walk_body(m.node):
+                        key = None
+                        if isinstance(n, ast.Call) and isinstance(n.func, ast.Attribute) and norm(n.func.value) == kwn:
+                            if n.func.attr in ('pop', 'setdefault', '__setitem__', '__delitem__') and n.args:
+                                key = n.args[0].value if isinstance(n.args[0], ast.Constant) else '<computed>'
+                            elif n.func.attr in ('clear', 'popitem'):
+                                key = '<any>'
+                            elif n.func.attr == 'update':
+                                keys = [k.arg for k in n.keywords] + [k_.value if isinstance(k_, ast.Constant) else None
+                                                                     for a_ in n.args if isinstance(a_, ast.Dict) for k_ in a_.keys]
+                                if any(not isinstance(a_, ast.Dict) for a_ in n.args):
+                                    keys.append(None)
+                                bad = [k for k in keys if k is None or k in std]
+                                key = (bad[0] or '<computed>') if bad else None
+                        elif isinstance(n, ast.Subscript) and isinstance(n.ctx, (ast.Store, ast.Del)) and norm(n.value) == kwn:
+                            key = n.slice.value if isinstance(n.slice, ast.Constant) else '<computed>'
+                        if key is not None and (key in std or key in ('<computed>', '<any>')):
+                            why = 'takes %r out of / overwrites it in **%s before the next constructor sees it' % (key, kwn)
+                # explicit keywords of the call that shadow what the caller gave
+                fixed = [k.arg for k in call.keywords if k.arg in std and not (isinstance(k.value, ast.Name) and k.value.id == k.arg)]
+                if why is None and fixed:
+                    why = 'passes a fixed %s= to the next constructor' % fixed[0]
+            if why is None and van is not None and not any(isinstance(x, ast.Starred) and isinstance(x.value, ast.Name) and x.value.id == van for x in args):
+                why = 'does not pass its *%s on' % van
+            named = [x.arg for x in a.posonlyargs + a.args + a.kwonlyargs][1:]
+            for pname in named:
+                if why is None and pname in std:
+                    passed = any(isinstance(x, ast.Name) and x.id == pname for x in args) or \
+                        any(k.arg == pname and isinstance(k.value, ast.Name) and k.value.id == pname for k in call.keywords)
+                    if not passed or _name_stores(m, pname):
+                        why = 'does not pass its %s parameter on (unchanged)' % pname
+        ok = why is None
+        rep.check('R09.a', fkey(m, 'hands its arguments to the next constructor'), ok,
+                  '%s.__init__ passes its arguments on to the next constructor' % c.name if ok else
+                  '%s.__init__ %s: a code / message / detail / error_type / mimetype given to this error type does not reach the instance' % (c.name, why),
+                  c.mod, sup[0] if sup else m.node)
+
+
 def rule_b(rep, repo, err, app, base):
     try:
         msm = err.const(TABLE)
@@ -1449,7 +1664,22 @@ def rule_b(rep, repo, err, app, base):
     rep.check('R09.b', '%s::DEFAULT_MIME' % ERR, dm in msm and msm[dm] == 'text', 'DEFAULT_MIME %s is a supported type served as text' % dm if dm in msm and msm.get(dm) == 'text' else
               'DEFAULT_MIME %r is not a supported plain-text type' % dm, err)
     _guarded(rep, check_adapt, rep, repo, err, base, msm)
-    for mod_, fi in ((err, err.func('ErrorHandler.render_error')), (app, app.func('default_render_error'))):
+    fam = [base] + repo.subclasses(base, [err])
+    for m, servers in family_methods(repo, fam):
+        # an adapt() of its own replaces the pairing of body and header for that error type: it is held to the same rule
+        if m.name == 'adapt' and m is not base.methods['adapt']:
+            _guarded(rep, check_adapt_override, rep, repo, err, base, msm, m)
+    check_table_constant(rep, repo, err)
+    renderers = [(err, err.func('ErrorHandler.render_error')), (app, app.func('default_render_error'))]
+    eh = err.classes.get('ErrorHandler')
+    if eh is not None:
+        for c in repo.subclasses(eh):
+            m = c.methods.get('render_error')
+            if m is not None and not any(m is fi_ for mod__, fi_ in renderers):
+                renderers.append((c.mod, m))
+    for mod_, fi in renderers:
+        if '_error' not in fi.params():
+            raise AnalysisError('%s: the _error parameter was not found' % fi.qualname)
         ok = renderer_adapts_negotiated(repo, err, mod_, fi, '_error')
         rep.check('R09.b', fkey(fi), bool(ok), 'negotiates over MIME_SUPPORT_MAP, adapts the error to the winner and returns it' if ok else
                   '%s does not negotiate over MIME_SUPPORT_MAP / adapt / return the same error' % fi.qualname, mod_, fi.node)
@@ -1470,6 +1700,10 @@ def rule_c(rep, repo, err, base, fam):
         (k == 'func' and he.name == 'escape' and he.mod.name in ('html', 'cgi'))
     rep.check('R09.c', '%s::html_escape' % ERR, ok, 'html_escape is the standard library\'s html.escape' if ok else 'html_escape resolves to %s' % (he,), err)
     _guarded(rep, check_escaped_dict, rep, repo, err, base)
+    for m, servers in family_methods(repo, fam):
+        # an error type with a to_escaped_dict() of its own feeds the inherited to_html / to_xml: same obligation
+        if m.name == 'to_escaped_dict' and m is not base.methods['to_escaped_dict']:
+            _guarded(rep, check_escaped_dict, rep, repo, err, base, m)
     _guarded(rep, check_markup_sinks, rep, repo, err, fam)
     if check_template_constancy(rep, 'R09.c') < 3:
         raise AnalysisError('format sinks in the to_* serialisers not found')
